@@ -216,7 +216,8 @@ def gen_history(r, index, e1_pool, family=None):
         return out
 
     if family in ("pairs", "forms"):
-        th2, x2 = [(A, Y), (B, X), (B, Y)][(j // (len(e1_pool) * len(ALL_FNS)) + r.randrange(3)) % 3]
+        # systematic: same theta / other x0, other theta / same x0, both other
+        th2, x2 = [(A, Y), (B, X), (B, Y)][(j // (len(e1_pool) * len(ALL_FNS))) % 3]
         ops += [C(0, e1, A, X), C(0, e2, th2, x2), C(0, e1, A, X)]
         if e2 in IV_FNS and e1 not in IV_FNS:
             ops.append(C(0, r.choice(IV_FNS), A, X))           # restore the initial state through an IV entry point
@@ -264,11 +265,14 @@ class Context(object):
         self.tr_true = self.traj(s["theta_true"], s["x0"])
         self.obj = {}
 
+    t0_override = None          # set while a wrong value is being diagnosed ("integrated from a truncated t0")
+
     def traj(self, theta, x0):
-        key = (tuple(float(v) for v in theta), tuple(float(v) for v in x0))
+        s = self.s
+        t0 = s["t0"] if self.t0_override is None else self.t0_override
+        key = (tuple(float(v) for v in theta), tuple(float(v) for v in x0), float(t0))
         if key not in self._tr:
-            s = self.s
-            self._tr[key] = LC.ref_traj(self.rhs, key[0], key[1], s["t0"], s["times"], **self.box)
+            self._tr[key] = LC.ref_traj(self.rhs, key[0], key[1], t0, s["times"], **self.box)
         return self._tr[key]
 
     def prepare(self, k):
@@ -380,8 +384,41 @@ def execute(case, judge, judged_fns):
     dead = set()
 
     def sig(fn, spec, what):
-        marks = int_marks(spec, s)
-        return "history:%s:%s:%s:%s%s" % (fn, what, case["family"], layout_name(spec), (":" + "+".join(marks)) if marks else "")
+        marks = int_marks(spec, s) if what in ("wrong-value", "not-reproducible") else []
+        return "history:%s:%s:%s%s" % (fn, what, layout_name(spec), (":" + "+".join(marks)) if marks else "")
+
+    seen_x0, seen_th = {}, {}          # per object / per model: the distinct values held so far (for the diagnosis)
+
+    def diagnose(ev, st):
+        """a wrong value is classified by asking the same judge whether the result is RIGHT for some other values:
+        initial values / parameters held earlier (a stale cache), initial values or t0 truncated to integers"""
+        hyp, late = [], []
+        tr = [float(int(v)) for v in ev["x0"]]
+        if tr != ev["x0"]:           # asked first when the initial state was given in an integer container, last otherwise
+            (hyp if ev["spec"]["forms"]["x0"].startswith("int") else late).append(("initial-values-truncated-to-int", ev["th"], tr, None))
+        if float(int(s["t0"])) != float(s["t0"]):
+            (hyp if ev["spec"]["forms"]["t"].startswith("int") else late).append(("t0-truncated-to-int", ev["th"], ev["x0"], float(int(s["t0"]))))
+        for x_old in reversed(seen_x0.get(ev["k"], [])[-5:]):
+            if x_old != ev["x0"]:
+                hyp.append(("stale-initial-values", ev["th"], x_old, None))
+        for t_old in reversed(seen_th.get(st["model"], [])[-6:]):
+            if t_old != ev["th"]:
+                hyp.append(("stale-parameters", t_old, ev["x0"], None))
+        for x_old in reversed(seen_x0.get(ev["k"], [])[-3:]):
+            for t_old in reversed(seen_th.get(st["model"], [])[-4:]):
+                if x_old != ev["x0"] and t_old != ev["th"]:
+                    hyp.append(("stale-parameters-and-initial-values", t_old, x_old, None))
+        for name, th_, x0_, t0_ in hyp + late:
+            ctx.t0_override = t0_
+            try:
+                r_ = judge(dict(ev, th=list(th_), x0=list(x0_), tags=[]))
+            except Exception:
+                r_ = None
+            finally:
+                ctx.t0_override = None
+            if r_ == []:
+                return name
+        return "wrong-value"
 
     for i, op in enumerate(case["ops"]):
         kind = op["op"]
@@ -390,6 +427,7 @@ def execute(case, judge, judged_fns):
             mref[op["model"]].update(dict(vals))
             # a partial assignment is only accepted as a dict; the pairs form gives every parameter (changed or not)
             models[op["model"]].parameters = dict(vals) if op["form"] == "dict" else [(k, float(mref[op["model"]][k])) for k in params]
+            seen_th.setdefault(op["model"], []).append([mref[op["model"]][k_] for k_ in params])
             tags.append("op:set_model")
             continue
         if kind == "new":
@@ -414,6 +452,7 @@ def execute(case, judge, judged_fns):
                 continue
             fp = spec["tp"] if spec["tp"] is not None else params
             oref[k] = {"theta": {k_: case["models"][spec["model"]]["theta"][params.index(k_)] for k_ in fp}, "x0": list(s["x0"]), "model": spec["model"]}
+            seen_x0.setdefault(k, []).append(list(s["x0"]))
             for a, b in spec["forms"].items():
                 tags.append("form:%s=%s" % (a, b))
             tags += ["layout:" + layout_name(spec), "cls:" + spec["cls"]]
@@ -455,6 +494,9 @@ def execute(case, judge, judged_fns):
         mref[st["model"]].update(st["theta"])
         th = [mref[st["model"]][k_] for k_ in params]
         x0 = list(st["x0"])
+        for book, key_, val in ((seen_x0, k, x0), (seen_th, st["model"], th)):
+            if val not in book.setdefault(key_, []):
+                book[key_].append(list(val))
         tags.append("call:%s%s" % (fn, "(None)" if arg is None else ""))
         passed = None if arg is None else conv(list(arg), op.get("form", "list"))
         passed_copy = copy.deepcopy(passed)
@@ -484,7 +526,15 @@ def execute(case, judge, judged_fns):
             continue
         judged += 1
         for v in verdict:
-            v["signature"] = sig(fn, spec, v.pop("class", "wrong-value"))
+            cls_ = v.pop("class", "wrong-value")
+            if cls_ == "wrong-value":
+                cls_ = diagnose(ev, st)
+                v["what"] += {"wrong-value": "", "initial-values-truncated-to-int": " (it is right for the initial values truncated to integers)",
+                              "t0-truncated-to-int": " (it is right for an integration started at t0 truncated to an integer)",
+                              "stale-initial-values": " (it is right for initial values the object held earlier)",
+                              "stale-parameters": " (it is right for parameter values that were current earlier)",
+                              "stale-parameters-and-initial-values": " (it is right for parameter and initial values held earlier)"}[cls_]
+            v["signature"] = sig(fn, spec, cls_)
             v["detail"] = (v.get("detail", "") + " | " + where + " | current theta=%s x0=%s target_param=%s target_state=%s obs=%s" % (
                 th, x0, spec["tp"], spec["ts"], spec["obs"]))[:3000]
             viol.append(v)
